@@ -65,6 +65,41 @@ def obligations(tier, seed):
 
         obs.append(Ob(f"C34/sum-of-subtrace-scores/{nm}", total, (gfi.KEY, P.args, P.example_vals()), assume=lambda k, a, v, A=A: A(a, v), note="the subtrace scores add up to the parent score"))
 
+    # after edits: the subtrace of the EDITED trace still equals the call's contribution at the new values (cached scores kept in step)
+    from genjax import Diff, IndexRequest, StaticRequest, Update
+
+    for nm in ["static(scan)", "static(vmap)", "composed"]:
+        P = cat[nm]()
+        A = gfi.base_assume(P, in_range=False)
+        off = 0
+        for addr, Q, _ in P.meta["subs"]:
+            m = len(Q.sites)
+            idxs = tuple(range(off, off + m))
+            off += m
+            if not ("index" in Q.supports and Q.kind in ("vmap", "scan")):
+                continue
+            K = Q.meta["inner"]
+            nlen = Q.meta["n"]
+
+            def fe(key, args, vals, i, newv, P=P, Q=Q, K=K, addr=addr, idxs=idxs):
+                tr, _ = P.gf.importance(key, P.chm(vals), args)
+                req = StaticRequest({addr: IndexRequest(i, Update(K.chm([newv] + [None] * (len(K.sites) - 1), subset=(0,))))})
+                tr2, w, rd, bwd = req.edit(key, tr, Diff.no_change(args))
+                st = tr2.get_subtrace(addr)
+                r = P.ref(args, gfi.trace_vals(P, tr2))
+                contrib = sum((jnp.sum(r.terms[j]) for j in idxs), jnp.float32(0.0))
+                inner_addr = Q.sites[0].static_addr
+                per_step = tr2.get_subtrace(*((addr,) if not isinstance(addr, tuple) else addr), *inner_addr).get_score() if len(K.sites) == 1 else None
+                lhs, rhs = [jnp.sum(st.get_score()), tr2.get_score()], [contrib, r.score]
+                if per_step is not None:
+                    lhs.append(jnp.sum(per_step)); rhs.append(contrib)
+                return lhs, rhs
+
+            kv = K.example_vals()
+            obs.append(Ob(f"C34/subtrace-after-index-edit[{addr}]/{nm}", fe, (gfi.KEY, P.args, P.example_vals(), jnp.int32(1), kv[0] + 0.5),
+                          assume=lambda k, a, v, i, nv, A=A, nlen=nlen: A(a, v) + [i[()] >= 0, i[()] < nlen],
+                          note="after StaticRequest({addr: IndexRequest(i, Update)}) with symbolic position i: the call's subtrace score == its contribution at the new values == the sum of its stacked per-step subtrace scores; parent score == reference"))
+
     # through vector combinators: stacked subtrace
     for nm in ["vmap(inner2)", "scan(kern2)", "switch(inner1,inner2)", "mask(inner2)", "map(inner2)"]:
         P = cat[nm]()
